@@ -88,6 +88,7 @@ Definition PK_CREATE_FILE := 15.    (* unable to create file *)
 Definition PK_CREATE_LINK := 16.    (* unable to create symbolic link *)
 Definition PK_CREATE_TYPE := 17.    (* creation requested for unknown entry type *)
 Definition PK_SWAP := 18.           (* unable to swap file *)
+Definition PK_LINK_PERMS := 19.     (* unable to set symbolic link permissions (repaired code only) *)
 Definition PK_FUEL := 99.           (* model only: recursion fuel exhausted *)
 
 (* ---------- entry accessors (Go: fields of *Entry) ---------- *)
@@ -158,6 +159,7 @@ Section Transition.
   Variable slm : slmode.       (* symbolicLinkMode *)
   Variable dfm ddm : N.        (* defaultFileMode, defaultDirectoryMode *)
   Variable own : bool.         (* defaultOwnership names an owner or a group *)
+  Variable fixed : bool.       (* createSymbolicLink as repaired (true) or as it is (false) *)
 
   Let Q : env := quiet E.
 
@@ -411,15 +413,24 @@ Section Transition.
   Definition create_file (h : path) (n : name) (p : path) (target : entry) : M unit :=
     find_and_move p target h n false.
 
-  (* createSymbolicLink (runtime.GOOS = "linux": permission bits are not set) *)
+  (* createSymbolicLink (runtime.GOOS = "linux": permission bits are not set).
+     As it is ([fixed] = false) a failure of SetPermissions is returned as the
+     failure of the whole creation although the link exists; as repaired
+     ([fixed] = true) the link is reported as created and the failure is
+     recorded as a problem, the way createDirectory treats its own
+     SetPermissions failure. *)
   Definition create_link (h : path) (n : name) (p : path) (target : entry) : M unit :=
     let t := entry_target target in
     if slmode_eqb slm SLIgnore then terr EINVAL else
     if slmode_eqb slm SLPortable &&
        negb (match norm p t with Some t' => String.eqb t' t | None => false end)
     then terr EINVAL else
-    tbind (run (liftF (symlink Q h n t))) (fun _ =>
-      run (liftF (set_permissions Q h n own 0))).
+    tbind (run (liftF (symlink Q h n t))) (fun _ s1 =>
+      let '(s2, r2) := run (liftF (set_permissions Q h n own 0)) s1 in
+      match r2 with
+      | ROk _ => (s2, ROk tt)
+      | _ => if fixed then (problem_at p PK_LINK_PERMS s2, ROk tt) else (s2, r2)
+      end).
 
   (* createDirectory's ContentLoop over target.Contents *)
   Fixpoint create_loop
@@ -559,8 +570,10 @@ Section Describe.
   Variable slm : slmode.
 
   (* names a scan never reports as synchronizable content: Mutagen's own
-     temporary files (skipped) and non-UTF-8 names (problematic) *)
-  Definition skip (n : name) : bool := String.prefix tmp_prefix n || negb (nameok n).
+     temporary files (skipped), non-UTF-8 names (problematic), and "." / ".."
+     (never part of a directory listing) *)
+  Definition skip (n : name) : bool :=
+    String.prefix tmp_prefix n || negb (nameok n) || negb (listed n).
 
   (* The entry core.Scan (no ignores, POSIX, portable permissions on a
      filesystem that preserves executability, one device) reports for the
